@@ -2,6 +2,10 @@
 
 package vam
 
+import (
+	"github.com/vkngwrapper/core/v3/core1_0"
+)
+
 // Entry points of the allocator-level histories.
 //
 // cfg%32 = device variant (see newWorld); cfg/32 = scenario.
@@ -148,5 +152,90 @@ func Verif_C20_Teardown(cfg int) {
 		verifAssert("C20/memory-of-a-live-allocation-is-not-released-by-teardown", m != nil && m.live)
 	}
 	verifAssert("C20/no-invalid-driver-call-during-the-history", len(w.dev.vu) == 0)
+	verifReach("end")
+}
+
+// Verif_C11_OverBudget: a custom pool with a minimum block count on a small heap that is pushed over its budget
+// (80 % of the heap) by a dedicated allocation from the default pools; allocations in the pool are then made and freed.
+// The pool must never drop below its minimum (nor exceed its maximum) block count.
+func Verif_C11_OverBudget(cfg int) {
+	w := newWorldH(11, cfg%32, 512)
+	var pool *Pool
+	var err error
+	p := verifCatch(func() {
+		pool, _, err = w.al.CreatePool(PoolCreateInfo{MemoryTypeIndex: tDeviceLocal, BlockSize: 256, MinBlockCount: 1, MaxBlockCount: 2})
+	})
+	verifAssume(!p)
+	verifAssume(err == nil)
+	w.pools = append(w.pools, pool)
+	w.oracleC11("C11/over-budget/after-pool-creation")
+	steps := 3
+	if verifTier() == 1 {
+		steps = 4
+	}
+	for i := 0; i < steps; i++ {
+		nops := 2
+		if len(w.live) > 0 {
+			nops = 3
+		}
+		switch verifChoice("op", nops) {
+		case 0:
+			w.allocate(3, nil, 1, 300) // dedicated, default pools
+		case 1:
+			w.allocate(0, pool, 1, 256) // block allocation in the pool
+		case 2:
+			w.free(verifChoice("victim", len(w.live)))
+		}
+		w.oracleC11("C11/over-budget/after-step")
+	}
+	verifReach("end")
+}
+
+// Verif_C19_Fallback: last clause of C19. A request whose eligible types are 1 and 2 (both host-visible, same heap);
+// every AllocateMemory driver call may fail. If the request fails, every eligible type must have received an attempt;
+// if it succeeds it must have landed in an eligible type.
+func Verif_C19_Fallback(cfg int) {
+	w := newWorld(19, cfg%32)
+	if verifChoice("preexistingBlock", 2) == 1 {
+		// an earlier allocation leaves a block with free space in type 2
+		reqs := core1_0.MemoryRequirements{Size: 64, Alignment: 1, MemoryTypeBits: 0x4}
+		a := &Allocation{}
+		_, err := w.al.AllocateMemory(&reqs, AllocationCreateInfo{}, a)
+		verifAssume(err == nil)
+		w.live = append(w.live, &vAlloc{a: a, reqSize: 64, reqAlign: 1, typeBits: 0x4})
+	}
+	size := verifNondetInt("size")
+	verifAssume(size >= 1)
+	verifAssume(size <= 400)
+	w.dev.faults, w.dev.faultsLeft = true, 8
+	w.dev.allocTypes = nil
+	reqs := core1_0.MemoryRequirements{Size: size, Alignment: 1, MemoryTypeBits: 0xF}
+	a := &Allocation{}
+	var err error
+	p := verifCatch(func() {
+		_, err = w.al.AllocateMemory(&reqs, AllocationCreateInfo{RequiredFlags: core1_0.MemoryPropertyHostVisible}, a)
+	})
+	verifAssert("C19/fallback/request-does-not-panic", !p)
+	if p {
+		return
+	}
+	if err != nil {
+		tried1, tried2 := false, false
+		for _, t := range w.dev.allocTypes {
+			if t == tHostCoh {
+				tried1 = true
+			}
+			if t == tHostNonCoh {
+				tried2 = true
+			}
+		}
+		// a type whose existing block can serve the request needs no driver call; it would have made the request succeed
+		verifAssert("C19/fallback/every-eligible-type-is-tried-before-the-request-fails", tried1 && tried2)
+		verifReach("failed")
+	} else {
+		ti := a.MemoryTypeIndex()
+		verifAssert("C19/fallback/success-lands-in-an-eligible-type", ti == tHostCoh || ti == tHostNonCoh)
+		verifReach("succeeded")
+	}
 	verifReach("end")
 }
